@@ -283,6 +283,19 @@ def inputs_c01(rng, tier):
     for _ in range(q(tier, 1500, 60000)):
         df = rng.choice((17, 18))
         fr.append(es_frame(rng, df, valid_version=rng.random() < 0.7))
+    # every value of every field in every carrier: the field sweeps of the other properties (each decoded frame is
+    # also rendered, Debug-printed and its velocity computed)
+    for df in (0, 4, 16, 20):
+        fr += field_sweep(rng, lambda df=df: rnd_frame(rng, df), 19, 13)
+    for df in (5, 21):
+        fr += field_sweep(rng, lambda df=df: rnd_frame(rng, df), 19, 13)
+    for tc in (9, 18, 20) if tier == "quick" else list(range(9, 19)) + [20, 21, 22]:
+        fr += field_sweep(rng, lambda tc=tc: es_frame(rng, rng.choice((17, 18)), tc), 40, 12)
+    fr += field_sweep(rng, lambda: es_frame(rng, 17, 28), 43, 13)
+    for p in ("C07", "C08", "C10", "C04"):
+        x = [bytearray(i["bytes"]) for i in GENERATORS_LATE[p](rng, "quick")]
+        rng.shuffle(x)
+        fr += x[:q(tier, 6000, 60000)]
     # extreme field values in every payload
     for df in sorted(gen.SUPPORTED):
         for fill in (0x00, 0xFF):
@@ -361,6 +374,7 @@ def inputs_c07(rng, tier):
     return gen.as_inputs(fr)
 
 
+GENERATORS_LATE = {"C04": inputs_c04, "C07": inputs_c07, "C08": inputs_c08, "C10": inputs_c10}
 GENERATORS = {"C01": inputs_c01, "C07": inputs_c07, "C02": inputs_c02, "C03": inputs_c03, "C04": inputs_c04, "C06": inputs_c06,
               "C08": inputs_c08, "C09": inputs_c09, "C10": inputs_c10}
 
